@@ -209,6 +209,10 @@ def run(rep):
     reset = [e for e in cq.stores(pre1, "isdominated") if cq.same_expr(e.idx, iv) and cq.same_expr(e.val, "0") and not e.conds]
     skipself = [r for r in cq.evaluate(cq.preceding(s2, l3)).returns if r[0] == "ContinueStmt" and cq.holds(r[1], f"{iv} == {jv}", True)] or \
         any(cq.excluded(e.conds, f"{iv} == {jv}", True) for e in flagst)
+    early = [r for r in cq.evaluate(cq.preceding(s2, l3)).returns if r[0] in ("ContinueStmt", "BreakStmt") and not cq.holds(r[1], f"{iv} == {jv}", True)]
+    rep.check(not early, "R20.b", file, "c_paretofront", "every other point is examined as a dominator: the only candidate skipped is the point itself",
+              f"{len(early)} path(s) leave the comparison before the coordinates are read, under {[cq.atom_text(cq.cond_atoms(c_, True)) if t_ else 'not ' + cq.atom_text(cq.cond_atoms(c_, True)) for c_, t_ in early[0][1]][:3] if early else ''} "
+              "(dominance with missing coordinates is not transitive: a dominated point can be the only dominator of another)", line=l2.get("_line"))
     okfl = bool(flagst) and cq.holds(flagst[0].conds, f"{DOM} == 1", True) and any(r[0] == "BreakStmt" and cq.holds(r[1], f"{DOM} == 1", True) for r in pce.returns)
     rep.check(DOM in penv2 and cq.same_expr(penv2[DOM], "1") and bool(reset) and bool(skipself) and okfl, "R20.b", file, "c_paretofront",
               "a point is flagged (and the search stops) iff some other point is strictly better in every non-missing coordinate; flag reset per point, the point is not compared with itself", "", line=l2.get("_line"))
